@@ -71,7 +71,9 @@ const vWholeLine = "\x00whole-line\x00"
 // vHostileLineShape is a line that lost or garbled its framing: no '#', no type, no colon, colon first, marker only.
 func vHostileLineShape(tp *verifsim.Tape, typ, payload string) string {
 	shapes := []string{":" + typ + ":" + payload, typ + ":" + payload, "#" + typ + payload, "#:" + payload, ":", "#", "", "::", "#" + typ + ":", "#" + typ, ":" + payload,
-		"##" + typ + ":" + payload, "#" + typ + "::" + payload, " #" + typ + ":" + payload, "#" + strings.ToLower(typ) + ":" + payload, payload, "#" + typ + ":" + payload + ":" + payload, ":#" + typ + ":"}
+		"##" + typ + ":" + payload, "#" + typ + "::" + payload,
+		// console decoration in front of the line (what a Windows console emits when it repaints): newline, cursor address
+		"\r\n\x1b[25;1H#" + typ + ":" + payload, "\x1b[1;1H#" + typ + ":" + payload, "\n\x1b[2;3H\x1b[K#" + typ + ":" + payload, "\r\n\x1b[25;1H", "\x1b[25;1H\r\n#" + typ + ":" + payload, " #" + typ + ":" + payload, "#" + strings.ToLower(typ) + ":" + payload, payload, "#" + typ + ":" + payload + ":" + payload, ":#" + typ + ":"}
 	return vWholeLine + shapes[tp.Draw("h.shape", len(shapes))]
 }
 
@@ -510,6 +512,14 @@ func vScenarioC12(rc *runCtx) {
 		o.flags = cfg.flags()
 	}
 	o.cols = int32([]int{80, 40, 20, 6}[tp.Draw("c12.cols", 4)])
+	// the attacked side may be one that reads its lines the Windows-console way
+	if !hugeBuf && o.relays == 0 && !cfg.tunnel && tp.Bool("c12.windows", 150) {
+		if tp.Bool("c12.winsrv", 500) {
+			cfg.srvWindows, o.srvWindows = true, true
+		} else {
+			cfg.cliWindows, o.cliWindows = true, true
+		}
+	}
 	x := newXferWorld(rc, o)
 	w := rc.w
 	dir := tp.Draw("c12.dir", 2) // 0: attack the server (edit client->server), 1: attack the client
@@ -575,7 +585,13 @@ func vScenarioC12(rc *runCtx) {
 				shaped = true
 			}
 		}
+		winDeco := (cfg.cliWindows || cfg.srvWindows) && !shaped && tp.Bool("c12.windeco", 300)
 		switch {
+		case winDeco:
+			// what a console emits when it repaints, in front of an otherwise genuine line
+			deco := []string{"\r\n\x1b[25;1H", "\x1b[1;1H", "\n\x1b[2;3H\x1b[K", "\r\n\x1b[25;119H", "\x1b[H\r\n\x1b[3;1H", "\r\n"}[tp.Draw("c12.windecok", 6)]
+			np = vWholeLine + deco + "#" + typ + ":" + payload
+			shaped = true
 		case shaped:
 			np = vHostileLineShape(tp, typ, payload)
 		default:
